@@ -92,10 +92,11 @@ type c04Buy struct {
 	referral string // none|self|other|name-other|name-self|unregistered|garbage
 	forOther bool
 	short    bool // payer holds one base unit less than the price
+	dup      bool // an identical purchase by another payer (for itself) was made just before, in the same block
 }
 
 func (b c04Buy) String() string {
-	return fmt.Sprintf("bytes=%d|days=%d|ref=%s|forOther=%v|short=%v", b.bytes, b.days, b.referral, b.forOther, b.short)
+	return fmt.Sprintf("bytes=%d|days=%d|ref=%s|forOther=%v|short=%v|dup=%v", b.bytes, b.days, b.referral, b.forOther, b.short, b.dup)
 }
 
 func within1(a, b sdk.Int) bool { return a.Sub(b).Abs().LTE(sdk.OneInt()) }
@@ -169,6 +170,13 @@ func c04RunBuy(env world.Env, g c04Group, b c04Buy) (vs []mc.Viol, class string)
 		if b.referral == "self" {
 			refStr = payer.Bech
 		}
+	}
+	if b.dup { // same size, duration and referral by B for itself: same gauge identity when the price is the same
+		other := w.A("B")
+		m0 := storagetypes.NewMsgBuyStorage(other.Bech, other.Bech, b.days, b.bytes, "ujkl")
+		m0.Referral = refStr
+		env.Deliver(m0)
+		ctx = env.Ctx()
 	}
 	before := w.Balances(ctx)
 	supBefore := w.App.BankKeeper.GetSupply(ctx, "ujkl").Amount
@@ -273,7 +281,7 @@ func c04RunBuy(env world.Env, g c04Group, b c04Buy) (vs []mc.Viol, class string)
 }
 
 // pay-once file post
-func c04RunPayOnce(env world.Env, g c04Group, total int64, expiryBlocks int64, short bool) (vs []mc.Viol, class string) {
+func c04RunPayOnce(env world.Env, g c04Group, total int64, expiryBlocks int64, short bool, dup bool) (vs []mc.Viol, class string) {
 	w := env.W()
 	k := w.App.StorageKeeper
 	ctx := env.Ctx()
@@ -299,6 +307,13 @@ func c04RunPayOnce(env world.Env, g c04Group, total int64, expiryBlocks int64, s
 		if err := w.App.BankKeeper.SendCoins(ctx, w.A("funder").Addr, payer.Addr, sdk.NewCoins(sdk.NewCoin("ujkl", cost.SubRaw(1)))); err != nil {
 			panic(err)
 		}
+	}
+	if dup { // an identical pay-once post (other payer, other content) in the same block: same gauge identity
+		f2 := mkFile(seqBytes(9, 3), 1024)
+		m0 := storagetypes.NewMsgPostFile(w.A("B").Bech, f2.merkle, total, 0, 0, 1, "{}")
+		m0.Expires = ctx.BlockHeight() + expiryBlocks
+		env.Deliver(m0)
+		ctx = env.Ctx()
 	}
 	before := w.Balances(ctx)
 	storeBefore := w.DumpStore(ctx, "storage")
@@ -384,12 +399,18 @@ func c04Enum(thorough bool) mc.Enum {
 						}
 					}
 				}
+				for _, dd := range []int64{30, 400} {
+					for _, rf := range []string{"none", "other"} {
+						c.Subs = append(c.Subs, c04Buy{bytes: 3 * gbBytes, days: dd, referral: rf, dup: true}.String())
+					}
+				}
 				if plan == "none" {
 					for _, total := range []int64{1, 1_000_000, 5_000_000_000} {
 						for _, exp := range []int64{14_399, 14_400, 5_256_000} {
 							for _, sh := range []bool{false, true} {
-								c.Subs = append(c.Subs, fmt.Sprintf("payonce|total=%d|expiry=%d|short=%v", total, exp, sh))
+								c.Subs = append(c.Subs, fmt.Sprintf("payonce|total=%d|expiry=%d|short=%v|dup=false", total, exp, sh))
 							}
+							c.Subs = append(c.Subs, fmt.Sprintf("payonce|total=%d|expiry=%d|short=false|dup=true", total, exp))
 						}
 					}
 				}
@@ -398,11 +419,11 @@ func c04Enum(thorough bool) mc.Enum {
 					var class string
 					if strings.HasPrefix(sub, "payonce|") {
 						var total, exp int64
-						var sh bool
-						if _, err := fmt.Sscanf(sub, "payonce|total=%d|expiry=%d|short=%t", &total, &exp, &sh); err != nil {
+						var sh, dup bool
+						if _, err := fmt.Sscanf(sub, "payonce|total=%d|expiry=%d|short=%t|dup=%t", &total, &exp, &sh, &dup); err != nil {
 							panic(err)
 						}
-						vs, class = c04RunPayOnce(env, g, total, exp, sh)
+						vs, class = c04RunPayOnce(env, g, total, exp, sh, dup)
 					} else {
 						var b c04Buy
 						f := strings.Split(sub, "|")
@@ -411,6 +432,9 @@ func c04Enum(thorough bool) mc.Enum {
 						b.referral = strings.TrimPrefix(f[2], "ref=")
 						fmt.Sscanf(f[3], "forOther=%t", &b.forOther)
 						fmt.Sscanf(f[4], "short=%t", &b.short)
+						if len(f) > 5 {
+							fmt.Sscanf(f[5], "dup=%t", &b.dup)
+						}
 						vs, class = c04RunBuy(env, g, b)
 					}
 					return mc.CaseResult{Viols: vs, Class: class, Nontrivial: strings.HasPrefix(class, "accepted")}
